@@ -534,7 +534,12 @@ func BuildColumnName(expr sqlparser.Expr) (string, string, error) {
 	if !ok {
 		return "", "", INVALID_TYPE.Extend(fmt.Sprintf("failed to build `COLUMN` name. expected ColName but found %T", expr))
 	}
-	return columnName.Qualifier.Name.String(), columnName.Name.String(), nil
+	// a.b.c arrives as the column c of the table b of the schema a: all of it is the path
+	qualifier := columnName.Qualifier.Name.String()
+	if outer := columnName.Qualifier.Qualifier.String(); len(outer) > 0 {
+		qualifier = fmt.Sprintf("%s.%s", outer, qualifier)
+	}
+	return qualifier, columnName.Name.String(), nil
 }
 
 func BuildFromAliasedTable(query *Query, as string, expr sqlparser.SimpleTableExpr) error {
